@@ -95,6 +95,15 @@ pub fn peek_event(cls: &str, b: &[u8]) -> Value {
 }
 
 // ---------------------------------------------------------------- C05
+/// the offsets at which the parser started on an entry (hook records 20 / 21 at the top of
+/// ResourceRecord::parse / Question::parse), whatever the outcome of the parse
+pub fn entry_starts(b: &[u8]) -> Value {
+    simple_dns::verif::arm_trace();
+    let _ = guarded(|| simple_dns::Packet::parse(b).map(|_| ()));
+    let steps = simple_dns::verif::take_trace();
+    json!(steps.iter().filter(|s| s[0] == 20 || s[0] == 21).map(|s| s[1]).collect::<Vec<u64>>())
+}
+
 pub fn run_framing(a: &Args) {
     let mut out = Out::new(&a.out, a.shards);
     let mut st = Stats::default();
@@ -105,7 +114,8 @@ pub fn run_framing(a: &Args) {
         let mode = c["mode"].as_str().unwrap();
         let delta = c["delta"].as_i64().unwrap();
         let cls = format!("framing {tn} {mode} delta={delta}");
-        let e = dog.parse_event(&cls, &msg);
+        let mut e = dog.parse_event(&cls, &msg);
+        e["starts"] = entry_starts(&msg);
         st.case(&msg, e["out"][0] == json!("ok"));
         st.bump(e["out"][0].as_str().unwrap());
         out.emit(e);
@@ -115,7 +125,8 @@ pub fn run_framing(a: &Args) {
         if mode == "exact" {
             // counts / lengths running past the end: every truncation of a valid three-record message
             for cut in 0..msg.len() {
-                let e = dog.parse_event(&format!("framing {tn} truncated"), &msg[..cut]);
+                let mut e = dog.parse_event(&format!("framing {tn} truncated"), &msg[..cut]);
+                e["starts"] = entry_starts(&msg[..cut]);
                 st.case(&msg[..cut], false);
                 out.emit(e);
             }
@@ -124,7 +135,8 @@ pub fn run_framing(a: &Args) {
     // order of the entries: messages with several additional records around an OPT pseudo-record (Gen_Edns)
     for c in load_cases(a, 1) {
         let msg = json_bytes(&c["msg"]);
-        let e = dog.parse_event(&format!("framing edns pos={}/{}", c["pos"], c["nar"]), &msg);
+        let mut e = dog.parse_event(&format!("framing edns pos={}/{}", c["pos"], c["nar"]), &msg);
+        e["starts"] = entry_starts(&msg);
         st.case(&msg, e["out"][0] == json!("ok"));
         out.emit(e);
     }
@@ -182,7 +194,7 @@ pub fn run_hostile(a: &Args) {
         bases.push((format!("{}", crate::rdata::type_name(c["t"].as_u64().unwrap())), json_bytes(&c["msg"])));
     }
     for c in load_cases(a, 1) {
-        if c["mode"] == json!("exact") {
+        if c["mode"] == json!("exact") || c["mode"] == json!("empty") {
             bases.push((format!("{} +sentinels", crate::rdata::type_name(c["t"].as_u64().unwrap())), json_bytes(&c["msg"])));
         }
     }
@@ -214,6 +226,22 @@ pub fn run_hostile(a: &Args) {
                     let mut m = msg.clone();
                     m[pos] = m[pos].wrapping_add(d);
                     emit(&mut out, &mut st, &mut dog, &format!("perturb {tn}"), &m);
+                }
+                // boundary values of every byte and of every aligned-or-not 16-bit field (length fields at
+                // and just below their maximum, where size arithmetic in a narrow type would wrap)
+                for v in [0u8, 0x80, 0xff] {
+                    if msg[pos] != v {
+                        let mut m = msg.clone();
+                        m[pos] = v;
+                        emit(&mut out, &mut st, &mut dog, &format!("extreme8 {tn}"), &m);
+                    }
+                }
+                if pos + 1 < msg.len() {
+                    for v in [0xffffu16, 0xfffc, 0x8000] {
+                        let mut m = msg.clone();
+                        m[pos..pos + 2].copy_from_slice(&v.to_be_bytes());
+                        emit(&mut out, &mut st, &mut dog, &format!("extreme16 {tn}"), &m);
+                    }
                 }
             }
         }
